@@ -1,12 +1,1091 @@
-//! C05 — monitor not built yet (stub so that the registry is complete).
+//! C05 — `MemRegion` behaves as a store of non-overlapping typed cells.
+//!
+//! Monitor shape: *history + executable model* with unique write ids.
+//!
+//! Two real `MemRegion<T>` evolve under a history of operations; next to them two
+//! instances of a small cell-store model (written from the documentation of
+//! `mem_region.rs` and the property statement, in terms of byte intervals and brute
+//! force intersection tests) evolve under the same history. After every operation
+//! the complete dump of both real regions is compared with the model, the byte
+//! ownership of the real dump is checked (no byte owned by two cells), no stored
+//! value may be top, and `get`/`get_unsized` are probed.
+//!
+//! Value domains:
+//!  * `Tracer` (defined here): `{size, ids:set<u32>, maybe_top}`; merging with top sets
+//!    `maybe_top` but is *not* top, so cells present in only one merge input survive.
+//!    Its `merge` asserts equal sizes (the trait contract says values of different
+//!    sizes cannot be merged), so a region merging differently sized cells panics.
+//!  * `BitvectorDomain`: the value is the write id; top is maximal.
+
+use crate::conv::bs;
 use crate::core::*;
+use crate::prng::{mix, Rng};
+use cwe_checker_lib::abstract_domain::{AbstractDomain, BitvectorDomain, HasTop, MemRegion, SizedDomain};
+use cwe_checker_lib::intermediate_representation::{Bitvector, ByteSize};
+use serde::{Deserialize, Serialize};
+use serde_json::{json, Value};
+use std::collections::{BTreeMap, BTreeSet};
 
 pub fn info() -> CheckInfo {
     CheckInfo {
         id: "C05",
-        rule: "(monitor not built yet)",
-        assumptions: &[],
-        run: |_cfg| Report::new(),
-        replay: |_cfg, _case| Report::new(),
+        rule: "one evaluation = one operation of a history applied to two real MemRegions and to the cell-store model, followed by the full oracle (complete iter()/entry_map()/values() dump of both regions equals the model, no byte owned by two cells, no stored top, is_top() iff empty, get/get_unsized probes). Histories: random (length <= 60, offsets -16..40, sizes 1,2,4,8, address sizes 4 and 8) over add/insert_at_byte_index, remove, merge_write_top, mark_interval_values_as_top, mark_all_values_as_top, add_offset_to_all_indices, values_mut+clear_top_values, merge/merge_with of the two regions, clone, top(); for the tracer domain and for BitvectorDomain; plus ALL histories of length <= 2 (quick) / <= 3 (thorough) over offsets 0..6, sizes 1,2,4. non-trivial = the operation removed/changed/moved at least one existing cell, or is a merge of two non-empty different regions; distinct = hash of (domain, cell shapes (offset,size) of both regions before the operation, operation without ids)",
+        assumptions: &[
+            "input domain: sizes > 0 (asserted by insert/remove), positions given as bitvectors of the region's address size (asserted), start <= end for mark_interval_values_as_top, values changed through values_mut keep their size, offsets small (no i64 overflow)",
+            "mark_interval_values_as_top(start,end,size): `end` is the last possible write offset (inclusive), i.e. the bytes [start, end+size) may be written; this is how every caller in the crate uses it (e.g. mark_interval_values_as_top(offset, offset, 1) for one byte)",
+            "the tracer domain is part of the harness: merge = union of ids / or of flags, asserting equal sizes; only a value without ids is top",
+            "BitvectorDomain::merge (equal -> same value, else Top) is trusted here, it is the subject of other properties",
+            "verdicts on the release profile",
+        ],
+        run,
+        replay,
     }
+}
+
+// ---------------------------------------------------------------------------
+// Model values and the two value domains
+
+/// Model-side description of a value: size in bytes, set of write ids (bit i = id i), maybe-top flag.
+#[derive(Clone, Copy, PartialEq, Eq, Debug)]
+struct MV {
+    size: u32,
+    ids: u128,
+    flag: bool,
+}
+
+impl MV {
+    fn top(size: u32) -> MV {
+        MV { size, ids: 0, flag: true }
+    }
+    fn is_top(&self) -> bool {
+        self.ids == 0
+    }
+    fn show(&self) -> String {
+        if self.ids == 0 {
+            return format!("Top{}", self.size);
+        }
+        let ids: Vec<String> = (0..128).filter(|i| self.ids >> i & 1 == 1).map(|i| i.to_string()).collect();
+        format!("w{}:{{{}}}{}", self.size, ids.join(","), if self.flag { "?" } else { "" })
+    }
+}
+
+#[derive(Clone, Copy, PartialEq, Eq, Debug)]
+enum Kind {
+    Tracer,
+    Bv,
+}
+
+impl Kind {
+    fn name(self) -> &'static str {
+        match self {
+            Kind::Tracer => "tracer",
+            Kind::Bv => "bv",
+        }
+    }
+}
+
+/// Model merge of two values of the same size.
+fn mv_merge(kind: Kind, a: MV, b: MV) -> MV {
+    debug_assert_eq!(a.size, b.size);
+    match kind {
+        Kind::Tracer => MV { size: a.size, ids: a.ids | b.ids, flag: a.flag || b.flag },
+        Kind::Bv => {
+            if a == b {
+                a
+            } else {
+                MV::top(a.size)
+            }
+        }
+    }
+}
+
+/// The value written by an insert operation.
+fn mk_value(kind: Kind, size: u32, id: u32, flag: bool) -> MV {
+    if id == 0 {
+        MV::top(size)
+    } else {
+        MV { size, ids: 1u128 << (id % 128), flag: flag && kind == Kind::Tracer }
+    }
+}
+
+/// The tracer domain: remembers which writes flowed into a value.
+#[derive(Clone, Debug, PartialEq, Eq, Hash, Serialize, Deserialize)]
+pub struct Tracer {
+    size: u32,
+    ids: BTreeSet<u32>,
+    maybe_top: bool,
+}
+
+impl AbstractDomain for Tracer {
+    fn merge(&self, other: &Self) -> Self {
+        assert_eq!(self.size, other.size, "tracer: cells of different sizes merged");
+        Tracer {
+            size: self.size,
+            ids: self.ids.union(&other.ids).cloned().collect(),
+            maybe_top: self.maybe_top || other.maybe_top,
+        }
+    }
+    fn is_top(&self) -> bool {
+        self.ids.is_empty()
+    }
+}
+
+impl SizedDomain for Tracer {
+    fn bytesize(&self) -> ByteSize {
+        ByteSize::new(self.size as u64)
+    }
+    fn new_top(bytesize: ByteSize) -> Self {
+        Tracer { size: u64::from(bytesize) as u32, ids: BTreeSet::new(), maybe_top: true }
+    }
+}
+
+impl HasTop for Tracer {
+    fn top(&self) -> Self {
+        Tracer { size: self.size, ids: BTreeSet::new(), maybe_top: true }
+    }
+}
+
+trait Dom: AbstractDomain + SizedDomain + HasTop + std::fmt::Debug {
+    const KIND: Kind;
+    fn make(v: &MV) -> Self;
+    fn observe(&self) -> MV;
+}
+
+impl Dom for Tracer {
+    const KIND: Kind = Kind::Tracer;
+    fn make(v: &MV) -> Self {
+        Tracer { size: v.size, ids: (0..128u32).filter(|i| v.ids >> i & 1 == 1).collect(), maybe_top: v.flag }
+    }
+    fn observe(&self) -> MV {
+        let mut ids = 0u128;
+        for i in &self.ids {
+            ids |= 1u128 << (i % 128);
+        }
+        MV { size: self.size, ids, flag: self.maybe_top }
+    }
+}
+
+impl Dom for BitvectorDomain {
+    const KIND: Kind = Kind::Bv;
+    fn make(v: &MV) -> Self {
+        if v.ids == 0 {
+            return BitvectorDomain::Top(bs(v.size));
+        }
+        let id = v.ids.trailing_zeros() as u64;
+        let bv = match v.size {
+            1 => Bitvector::from_u8(id as u8),
+            2 => Bitvector::from_u16(id as u16),
+            4 => Bitvector::from_u32(id as u32),
+            8 => Bitvector::from_u64(id),
+            _ => panic!("harness: unsupported cell size"),
+        };
+        BitvectorDomain::Value(bv)
+    }
+    fn observe(&self) -> MV {
+        match self {
+            BitvectorDomain::Top(sz) => MV::top(u64::from(*sz) as u32),
+            BitvectorDomain::Value(bv) => {
+                let size = u64::from(self.bytesize()) as u32;
+                match bv.try_to_u64() {
+                    Ok(v) if v > 0 && v < 128 => MV { size, ids: 1u128 << v, flag: false },
+                    // a value that was never written: cannot equal any model value
+                    _ => MV { size, ids: 0, flag: false },
+                }
+            }
+        }
+    }
+}
+
+fn pos_bv(off: i64, addr: u32) -> Bitvector {
+    match addr {
+        4 => Bitvector::from_i32(off as i32),
+        _ => Bitvector::from_i64(off),
+    }
+}
+
+fn small_bv(v: i64, w: u32) -> Bitvector {
+    match w {
+        1 => Bitvector::from_i8(v as i8),
+        2 => Bitvector::from_i16(v as i16),
+        4 => Bitvector::from_i32(v as i32),
+        _ => Bitvector::from_i64(v),
+    }
+}
+
+// ---------------------------------------------------------------------------
+// Operations of a history
+
+#[derive(Clone, Debug, PartialEq, Serialize, Deserialize)]
+enum Op {
+    /// write of a fresh value (`id` = unique write id, 0 = the top value) of `size` bytes at `off`
+    Insert { r: u8, off: i64, size: u32, id: u32, flag: bool, via_add: bool },
+    /// remove(off, size); `sw` = width of the bitvector carrying the size
+    Remove { r: u8, off: i64, size: u32, sw: u32 },
+    /// merge_write_top(off, size)
+    Mwt { r: u8, off: i64, size: u32 },
+    /// mark_interval_values_as_top(start, end, elem)
+    Mark { r: u8, start: i64, end: i64, elem: u32 },
+    MarkAll { r: u8 },
+    /// add_offset_to_all_indices(k)
+    Shift { r: u8, k: i64 },
+    /// values_mut(): the i-th cell (in offset order) becomes top if bit i%64 of `top_mask` is set,
+    /// else a fresh value with write id `id` if bit i%64 of `fresh_mask` is set; then clear_top_values()
+    Mutate { r: u8, top_mask: u64, fresh_mask: u64, id: u32 },
+    /// region[dst] = region[lhs].merge(region[1-lhs]); `with` (needs dst == lhs): via merge_with
+    Merge { lhs: u8, dst: u8, with: bool },
+    /// region[dst] = region[1-dst].clone()
+    Copy { dst: u8 },
+    /// region[r] = region[r].top()
+    Reset { r: u8 },
+}
+
+impl Op {
+    fn kind(&self) -> &'static str {
+        match self {
+            Op::Insert { via_add: true, .. } => "add",
+            Op::Insert { .. } => "insert",
+            Op::Remove { .. } => "remove",
+            Op::Mwt { .. } => "merge_write_top",
+            Op::Mark { .. } => "mark_interval",
+            Op::MarkAll { .. } => "mark_all",
+            Op::Shift { .. } => "shift",
+            Op::Mutate { .. } => "values_mut_clear_top",
+            Op::Merge { with: true, .. } => "merge_with",
+            Op::Merge { .. } => "merge",
+            Op::Copy { .. } => "clone",
+            Op::Reset { .. } => "top",
+        }
+    }
+    /// hash of the operation without write ids
+    fn shape_hash(&self) -> u64 {
+        let h = |a: u64, xs: &[i64]| xs.iter().fold(a, |h, x| mix(h, *x as u64));
+        match *self {
+            Op::Insert { r, off, size, id, flag, via_add } => h(1, &[r as i64, off, size as i64, (id == 0) as i64, flag as i64, via_add as i64]),
+            Op::Remove { r, off, size, .. } => h(2, &[r as i64, off, size as i64]),
+            Op::Mwt { r, off, size } => h(3, &[r as i64, off, size as i64]),
+            Op::Mark { r, start, end, elem } => h(4, &[r as i64, start, end, elem as i64]),
+            Op::MarkAll { r } => h(5, &[r as i64]),
+            Op::Shift { r, k } => h(6, &[r as i64, k]),
+            Op::Mutate { r, top_mask, fresh_mask, .. } => h(7, &[r as i64, top_mask as i64, fresh_mask as i64]),
+            Op::Merge { lhs, dst, with } => h(8, &[lhs as i64, dst as i64, with as i64]),
+            Op::Copy { dst } => h(9, &[dst as i64]),
+            Op::Reset { r } => h(10, &[r as i64]),
+        }
+    }
+}
+
+// ---------------------------------------------------------------------------
+// The oracle: a cell store described by byte intervals
+
+/// Cells `(offset, value)`, kept sorted by offset. A cell owns the bytes `offset .. offset+size`.
+#[derive(Clone, PartialEq, Eq, Debug, Default)]
+struct Model {
+    cells: Vec<(i64, MV)>,
+}
+
+/// Does the cell at `off` own a byte of `start..end`?
+fn hits(off: i64, v: &MV, start: i64, end: i64) -> bool {
+    (off..off + v.size as i64).any(|b| start <= b && b < end)
+}
+
+impl Model {
+    fn cell_at(&self, off: i64) -> Option<MV> {
+        self.cells.iter().find(|(o, _)| *o == off).map(|(_, v)| *v)
+    }
+    fn any_hit(&self, start: i64, end: i64) -> bool {
+        self.cells.iter().any(|(o, v)| hits(*o, v, start, end))
+    }
+    fn put(&mut self, off: i64, v: MV) {
+        self.cells.push((off, v));
+        self.cells.sort_by_key(|c| c.0);
+    }
+    /// every cell owning a byte of the interval is forgotten
+    fn clear(&mut self, start: i64, end: i64) {
+        self.cells.retain(|(o, v)| !hits(*o, v, start, end));
+    }
+    fn write(&mut self, off: i64, v: MV) {
+        self.clear(off, off + v.size as i64);
+        if !v.is_top() {
+            self.put(off, v);
+        }
+    }
+    /// every cell owning a byte of the interval is merged with top (and forgotten if that is top)
+    fn top_range(&mut self, kind: Kind, start: i64, end: i64) {
+        for (o, v) in self.cells.iter_mut() {
+            if hits(*o, v, start, end) {
+                *v = mv_merge(kind, *v, MV::top(v.size));
+            }
+        }
+        self.cells.retain(|(_, v)| !v.is_top());
+    }
+    fn merge_write_top(&mut self, kind: Kind, off: i64, size: u32) {
+        match self.cell_at(off) {
+            Some(v) if v.size == size => self.top_range(kind, off, off + 1),
+            _ => self.clear(off, off + size as i64),
+        }
+    }
+    fn shift(&mut self, k: i64) {
+        for c in self.cells.iter_mut() {
+            c.0 += k;
+        }
+    }
+    fn mutate(&mut self, kind: Kind, top_mask: u64, fresh_mask: u64, id: u32) {
+        for (i, (_, v)) in self.cells.iter_mut().enumerate() {
+            if top_mask >> (i % 64) & 1 == 1 {
+                *v = MV::top(v.size);
+            } else if fresh_mask >> (i % 64) & 1 == 1 {
+                *v = mk_value(kind, v.size, id, false);
+            }
+        }
+        self.cells.retain(|(_, v)| !v.is_top());
+    }
+    /// The merge of the statement: cells held by both inputs at the same offset with the same size are
+    /// merged; cells of one input that overlap nothing in the other input are merged with top; every
+    /// other cell is dropped; results that are top are dropped.
+    fn merge(kind: Kind, a: &Model, b: &Model, st: &mut Stats) -> Model {
+        let mut out = Model::default();
+        for (o, v) in &a.cells {
+            match b.cell_at(*o) {
+                Some(w) if w.size == v.size => {
+                    let m = mv_merge(kind, *v, w);
+                    if !m.is_top() {
+                        out.put(*o, m);
+                        st.hit("merge:common-cell-kept");
+                    } else {
+                        st.hit("merge:common-cell-top-dropped");
+                    }
+                }
+                _ => {
+                    if !b.any_hit(*o, *o + v.size as i64) {
+                        let m = mv_merge(kind, *v, MV::top(v.size));
+                        if !m.is_top() {
+                            out.put(*o, m);
+                            st.hit("merge:one-sided-kept");
+                        } else {
+                            st.hit("merge:one-sided-top-dropped");
+                        }
+                    } else {
+                        st.hit("merge:overlapping-dropped");
+                    }
+                }
+            }
+        }
+        for (o, w) in &b.cells {
+            let common = matches!(a.cell_at(*o), Some(v) if v.size == w.size);
+            if !common {
+                if !a.any_hit(*o, *o + w.size as i64) {
+                    let m = mv_merge(kind, *w, MV::top(w.size));
+                    if !m.is_top() {
+                        out.put(*o, m);
+                        st.hit("merge:one-sided-kept");
+                    } else {
+                        st.hit("merge:one-sided-top-dropped");
+                    }
+                } else {
+                    st.hit("merge:overlapping-dropped");
+                }
+            }
+        }
+        out
+    }
+    fn show(&self) -> String {
+        let v: Vec<String> = self.cells.iter().map(|(o, v)| format!("{o}->{}", v.show())).collect();
+        format!("[{}]", v.join(", "))
+    }
+    fn shape_hash(&self) -> u64 {
+        self.cells.iter().fold(0x51, |h, (o, v)| mix(h, (*o as u64) << 8 | v.size as u64))
+    }
+}
+
+fn apply_model(kind: Kind, m: &mut [Model; 2], op: &Op, st: &mut Stats) {
+    match *op {
+        Op::Insert { r, off, size, id, flag, .. } => {
+            let m = &mut m[r as usize];
+            let n = m.cells.iter().filter(|(o, v)| hits(*o, v, off, off + size as i64)).count();
+            st.hit(match n {
+                0 => "write:into-free-space",
+                1 => "write:replaces-1-cell",
+                _ => "write:replaces-2+-cells",
+            });
+            if m.cells.iter().any(|(o, v)| *o < off && hits(*o, v, off, off + size as i64)) {
+                st.hit("write:cuts-left-neighbour");
+            }
+            if id == 0 {
+                st.hit("write:top-value");
+            }
+            m.write(off, mk_value(kind, size, id, flag));
+        }
+        Op::Remove { r, off, size, .. } => m[r as usize].clear(off, off + size as i64),
+        Op::Mwt { r, off, size } => {
+            let m = &mut m[r as usize];
+            st.hit(match m.cell_at(off) {
+                Some(v) if v.size == size => "merge_write_top:exact-cell",
+                Some(_) => "merge_write_top:same-offset-other-size",
+                None => "merge_write_top:no-cell-at-offset",
+            });
+            m.merge_write_top(kind, off, size)
+        }
+        Op::Mark { r, start, end, elem } => {
+            let m = &mut m[r as usize];
+            if m.cells.iter().any(|(o, v)| *o < start && hits(*o, v, start, end + elem as i64)) {
+                st.hit("mark_interval:touches-left-neighbour");
+            }
+            m.top_range(kind, start, end + elem as i64)
+        }
+        Op::MarkAll { r } => m[r as usize].top_range(kind, i64::MIN / 2, i64::MAX / 2),
+        Op::Shift { r, k } => m[r as usize].shift(k),
+        Op::Mutate { r, top_mask, fresh_mask, id } => m[r as usize].mutate(kind, top_mask, fresh_mask, id),
+        Op::Merge { lhs, dst, .. } => {
+            if m[0] == m[1] {
+                st.hit("merge:identical-inputs");
+            }
+            let res = Model::merge(kind, &m[lhs as usize], &m[1 - lhs as usize], st);
+            m[dst as usize] = res;
+        }
+        Op::Copy { dst } => m[dst as usize] = m[1 - dst as usize].clone(),
+        Op::Reset { r } => m[r as usize] = Model::default(),
+    }
+}
+
+// ---------------------------------------------------------------------------
+// Driving the real regions
+
+fn apply_real<T: Dom>(regs: &mut [MemRegion<T>; 2], op: &Op, addr: u32) {
+    match *op {
+        Op::Insert { r, off, size, id, flag, via_add } => {
+            let v = T::make(&mk_value(T::KIND, size, id, flag));
+            if via_add {
+                regs[r as usize].add(v, pos_bv(off, addr));
+            } else {
+                regs[r as usize].insert_at_byte_index(v, off);
+            }
+        }
+        Op::Remove { r, off, size, sw } => regs[r as usize].remove(pos_bv(off, addr), small_bv(size as i64, sw)),
+        Op::Mwt { r, off, size } => regs[r as usize].merge_write_top(pos_bv(off, addr), bs(size)),
+        Op::Mark { r, start, end, elem } => regs[r as usize].mark_interval_values_as_top(start, end, bs(elem)),
+        Op::MarkAll { r } => regs[r as usize].mark_all_values_as_top(),
+        Op::Shift { r, k } => regs[r as usize].add_offset_to_all_indices(k),
+        Op::Mutate { r, top_mask, fresh_mask, id } => {
+            let reg = &mut regs[r as usize];
+            for (i, v) in reg.values_mut().enumerate() {
+                if top_mask >> (i % 64) & 1 == 1 {
+                    *v = v.top();
+                } else if fresh_mask >> (i % 64) & 1 == 1 {
+                    let size = u64::from(v.bytesize()) as u32;
+                    *v = T::make(&mk_value(T::KIND, size, id, false));
+                }
+            }
+            reg.clear_top_values();
+        }
+        Op::Merge { lhs, dst, with } => {
+            let (a, b) = regs.split_at_mut(1);
+            if with && lhs == dst {
+                if lhs == 0 {
+                    a[0].merge_with(&b[0]);
+                } else {
+                    b[0].merge_with(&a[0]);
+                }
+            } else {
+                let res = if lhs == 0 { a[0].merge(&b[0]) } else { b[0].merge(&a[0]) };
+                regs[dst as usize] = res;
+            }
+        }
+        Op::Copy { dst } => regs[dst as usize] = regs[1 - dst as usize].clone(),
+        Op::Reset { r } => regs[r as usize] = regs[r as usize].top(),
+    }
+}
+
+/// Everything observed on one real region after an operation.
+struct Obs {
+    /// (offset, value, value.is_top(), value.bytesize())
+    dump: Vec<(i64, MV, bool, u64)>,
+    views_agree: bool,
+    region_is_top: bool,
+    addr: u64,
+    /// per probe: get -> (value, is_top, bytesize), get_unsized
+    gets: Vec<((MV, bool, u64), Option<MV>)>,
+}
+
+fn observe<T: Dom>(reg: &MemRegion<T>, probes: &[(i64, u32)], addr: u32) -> Obs {
+    let dump: Vec<(i64, MV, bool, u64)> = reg.iter().map(|(o, v)| (*o, v.observe(), v.is_top(), u64::from(v.bytesize()))).collect();
+    let map = reg.entry_map();
+    let views_agree = map.len() == dump.len()
+        && map.iter().zip(dump.iter()).all(|((o, v), d)| *o == d.0 && v.observe() == d.1)
+        && reg.values().count() == dump.len()
+        && reg.values().zip(dump.iter()).all(|(v, d)| v.observe() == d.1);
+    let gets = probes
+        .iter()
+        .map(|(o, s)| {
+            let g = reg.get(pos_bv(*o, addr), bs(*s));
+            let u = reg.get_unsized(pos_bv(*o, addr));
+            ((g.observe(), g.is_top(), u64::from(g.bytesize())), u.map(|u| u.observe()))
+        })
+        .collect();
+    Obs { dump, views_agree, region_is_top: reg.is_top(), addr: u64::from(reg.get_address_bytesize()), gets }
+}
+
+#[derive(Clone, Copy)]
+enum Probes {
+    /// all offsets from 9 below the lowest to 9 above the highest cell, all sizes
+    Sweep,
+    /// the cells themselves (right size, a wrong size, neighbouring offsets) plus pseudo-random probes
+    Light(u64),
+}
+
+const SIZES: [u32; 4] = [1, 2, 4, 8];
+
+fn probe_list(mode: Probes, model: &Model, step: u64) -> Vec<(i64, u32)> {
+    let mut out = Vec::new();
+    match mode {
+        Probes::Sweep => {
+            let lo = model.cells.first().map(|c| c.0 - 9).unwrap_or(-1);
+            let hi = model.cells.last().map(|c| c.0 + 9).unwrap_or(1);
+            for o in lo..=hi {
+                for s in SIZES {
+                    out.push((o, s));
+                }
+            }
+        }
+        Probes::Light(seed) => {
+            let mut h = mix(seed, step);
+            for (o, v) in &model.cells {
+                out.push((*o, v.size));
+                h = mix(h, *o as u64);
+                out.push((*o, SIZES[(h % 4) as usize]));
+                out.push((*o + (h >> 8) as i64 % 5 - 2, v.size));
+            }
+            for _ in 0..2 {
+                h = mix(h, 7);
+                out.push(((h % 61) as i64 - 18, SIZES[((h >> 32) % 4) as usize]));
+            }
+        }
+    }
+    out
+}
+
+fn show_dump(d: &[(i64, MV, bool, u64)]) -> String {
+    let v: Vec<String> = d.iter().map(|(o, v, t, _)| format!("{o}->{}{}", v.show(), if *t && !v.is_top() { "(is_top)" } else { "" })).collect();
+    format!("[{}]", v.join(", "))
+}
+
+/// Judge one region. Returns (what, detail) of the first disagreement.
+fn judge(model: &Model, obs: &Obs, probes: &[(i64, u32)], addr: u32, touched: bool, st: &mut Stats) -> Option<(String, String)> {
+    // byte ownership: no two cells of the real region own the same byte
+    let mut sorted: Vec<(i64, u64)> = obs.dump.iter().map(|d| (d.0, d.3)).collect();
+    sorted.sort();
+    for w in sorted.windows(2) {
+        if w[0].0 + w[0].1 as i64 > w[1].0 {
+            return Some((
+                "overlap".into(),
+                format!("cells at offset {} (size {}) and offset {} (size {}) own a common byte; region = {}", w[0].0, w[0].1, w[1].0, w[1].1, show_dump(&obs.dump)),
+            ));
+        }
+    }
+    if let Some(d) = obs.dump.iter().find(|d| d.2) {
+        return Some(("stored-top".into(), format!("the region stores a top value at offset {}; region = {}", d.0, show_dump(&obs.dump))));
+    }
+    if let Some(d) = obs.dump.iter().find(|d| d.3 != d.1.size as u64) {
+        return Some(("bytesize".into(), format!("cell at {} reports bytesize {} but holds {}", d.0, d.3, d.1.show())));
+    }
+    let same = obs.dump.len() == model.cells.len() && obs.dump.iter().zip(model.cells.iter()).all(|(d, c)| d.0 == c.0 && d.1 == c.1);
+    if !same {
+        let what = if touched { "dump-mismatch" } else { "untouched-region-changed" };
+        return Some((what.into(), format!("expected cells {} but the region holds {}", model.show(), show_dump(&obs.dump))));
+    }
+    if !obs.views_agree {
+        return Some(("views-disagree".into(), "iter(), entry_map() and values() do not describe the same cells".into()));
+    }
+    if obs.region_is_top != model.cells.is_empty() {
+        return Some(("is_top".into(), format!("is_top() = {} but the region holds {} cells", obs.region_is_top, model.cells.len())));
+    }
+    if obs.addr != addr as u64 {
+        return Some(("address-bytesize".into(), format!("get_address_bytesize() = {} expected {addr}", obs.addr)));
+    }
+    for ((o, s), (g, u)) in probes.iter().zip(obs.gets.iter()) {
+        let cell = model.cell_at(*o);
+        match cell {
+            Some(v) if v.size == *s => {
+                st.hit("get:hit");
+                if g.0 != v || g.1 || g.2 != *s as u64 {
+                    return Some(("get".into(), format!("get({o},{s}) = {} but the cell written there is {}", g.0.show(), v.show())));
+                }
+            }
+            other => {
+                st.hit(if other.is_some() { "get:size-mismatch" } else { "get:no-cell" });
+                if !g.1 || g.2 != *s as u64 {
+                    return Some((
+                        "get".into(),
+                        format!("get({o},{s}) = {} (bytesize {}), expected Top of size {s}; cell at that offset: {:?}", g.0.show(), g.2, other.map(|v| v.show())),
+                    ));
+                }
+            }
+        }
+        if *u != cell {
+            return Some(("get_unsized".into(), format!("get_unsized({o}) = {:?}, expected {:?}", u.map(|v| v.show()), cell.map(|v| v.show()))));
+        }
+    }
+    None
+}
+
+// ---------------------------------------------------------------------------
+// One step of a history: real + model + oracle
+
+#[derive(Default)]
+struct Stats {
+    counts: BTreeMap<&'static str, u64>,
+}
+
+impl Stats {
+    fn hit(&mut self, k: &'static str) {
+        *self.counts.entry(k).or_insert(0) += 1;
+    }
+    fn flush(self, rep: &mut Report) {
+        for (k, v) in self.counts {
+            rep.obs_n(k, v);
+        }
+    }
+}
+
+#[derive(Clone)]
+struct State<T: Dom> {
+    regs: [MemRegion<T>; 2],
+    models: [Model; 2],
+}
+
+impl<T: Dom> State<T> {
+    fn new(addr: u32) -> State<T> {
+        State { regs: [MemRegion::new(bs(addr)), MemRegion::new(bs(addr))], models: [Model::default(), Model::default()] }
+    }
+}
+
+struct Fail {
+    what: String,
+    detail: String,
+}
+
+struct StepInfo {
+    nontrivial: bool,
+    fingerprint: u64,
+}
+
+fn targets(op: &Op) -> [bool; 2] {
+    let one = |r: u8| [r == 0, r == 1];
+    match *op {
+        Op::Insert { r, .. } | Op::Remove { r, .. } | Op::Mwt { r, .. } | Op::Mark { r, .. } | Op::MarkAll { r } | Op::Shift { r, .. } | Op::Mutate { r, .. } | Op::Reset { r } => one(r),
+        Op::Merge { dst, .. } | Op::Copy { dst } => one(dst),
+    }
+}
+
+fn step<T: Dom>(st: &mut State<T>, op: &Op, addr: u32, mode: Probes, idx: u64, stats: &mut Stats) -> Result<StepInfo, Fail> {
+    let before = st.models.clone();
+    apply_model(T::KIND, &mut st.models, op, stats);
+    if let Err(p) = guard(|| apply_real(&mut st.regs, op, addr)) {
+        return Err(Fail { what: format!("panic:{}", panic_site(&p)), detail: format!("the operation panicked: {p}; regions before: {} / {}", before[0].show(), before[1].show()) });
+    }
+    let tg = targets(op);
+    for i in 0..2 {
+        let probes = probe_list(mode, &st.models[i], idx * 2 + i as u64);
+        let obs = match guard(|| observe(&st.regs[i], &probes, addr)) {
+            Ok(o) => o,
+            Err(p) => return Err(Fail { what: format!("panic-in-read:{}", panic_site(&p)), detail: format!("reading region {i} panicked: {p}") }),
+        };
+        if let Some((what, detail)) = judge(&st.models[i], &obs, &probes, addr, tg[i], stats) {
+            return Err(Fail { what, detail: format!("region {i} after {op:?}: {detail}; regions before: {} / {}", before[0].show(), before[1].show()) });
+        }
+    }
+    // equality of the two regions must agree with the model
+    let eq = st.regs[0] == st.regs[1];
+    if eq != (st.models[0] == st.models[1]) {
+        return Err(Fail { what: "region-eq".into(), detail: format!("region0 == region1 is {eq} but the cells are {} / {}", st.models[0].show(), st.models[1].show()) });
+    }
+    // non-trivial: an existing cell was removed, changed or moved / a merge of two non-empty different regions
+    let nontrivial = match op {
+        Op::Merge { .. } => !before[0].cells.is_empty() && !before[1].cells.is_empty() && before[0] != before[1],
+        Op::Copy { .. } | Op::Reset { .. } => false,
+        _ => {
+            let r = if tg[0] { 0 } else { 1 };
+            before[r].cells.iter().any(|c| !st.models[r].cells.contains(c))
+        }
+    };
+    let fingerprint = mix(mix(mix(T::KIND as u64 + 1, before[0].shape_hash()), before[1].shape_hash()), op.shape_hash());
+    Ok(StepInfo { nontrivial, fingerprint })
+}
+
+/// Run a complete history with the sweep probes; returns the index of the failing step.
+fn run_history<T: Dom>(ops: &[Op], addr: u32, stats: &mut Stats) -> Option<(usize, Fail)> {
+    let mut st: State<T> = State::new(addr);
+    for (i, op) in ops.iter().enumerate() {
+        if let Err(f) = step(&mut st, op, addr, Probes::Sweep, i as u64, stats) {
+            return Some((i, f));
+        }
+    }
+    None
+}
+
+fn signature(kind: Kind, op: &Op, what: &str) -> String {
+    format!("{}:{}:{}", kind.name(), op.kind(), what)
+}
+
+/// Delta-debug a failing history: drop operations as long as the same signature is reported.
+fn shrink<T: Dom>(ops: Vec<Op>, addr: u32, sig: &str) -> Vec<Op> {
+    let mut cur = ops;
+    let mut dummy = Stats::default();
+    let fails = |cand: &[Op], dummy: &mut Stats| match run_history::<T>(cand, addr, dummy) {
+        Some((i, f)) => signature(T::KIND, &cand[i], &f.what) == sig,
+        None => false,
+    };
+    loop {
+        let mut changed = false;
+        let mut i = cur.len();
+        while i > 0 {
+            i -= 1;
+            if cur.len() <= 1 {
+                break;
+            }
+            let mut cand = cur.clone();
+            cand.remove(i);
+            if fails(&cand, &mut dummy) {
+                // keep only the prefix up to the failing step
+                if let Some((k, _)) = run_history::<T>(&cand, addr, &mut dummy) {
+                    cand.truncate(k + 1);
+                }
+                cur = cand;
+                changed = true;
+                i = i.min(cur.len());
+            }
+        }
+        if !changed {
+            break;
+        }
+    }
+    cur
+}
+
+fn case_json(kind: Kind, addr: u32, ops: &[Op]) -> Value {
+    json!({"kind": "history", "dom": kind.name(), "addr": addr, "ops": ops})
+}
+
+/// Report a failing history (minimised).
+fn report_failure<T: Dom>(rep: &mut Report, ops: &[Op], addr: u32, fail: Fail, shrink_budget: &mut u32) {
+    let last = ops.last().expect("non-empty history");
+    let sig = signature(T::KIND, last, &fail.what);
+    let mut ops_min = ops.to_vec();
+    let mut detail = fail.detail;
+    if *shrink_budget > 0 && ops.len() > 1 {
+        *shrink_budget -= 1;
+        let mut dummy = Stats::default();
+        // only shrink what reproduces under the replay probes
+        if let Some((i, f)) = run_history::<T>(ops, addr, &mut dummy) {
+            if signature(T::KIND, &ops[i], &f.what) == sig {
+                ops_min = shrink::<T>(ops[..=i].to_vec(), addr, &sig);
+                if let Some((_, f2)) = run_history::<T>(&ops_min, addr, &mut dummy) {
+                    detail = f2.detail;
+                }
+            }
+        }
+    }
+    rep.violation(sig, None, detail, case_json(T::KIND, addr, &ops_min), ops_min.len() as u64);
+}
+
+// ---------------------------------------------------------------------------
+// Random histories
+
+const OFF_LO: i64 = -16;
+const OFF_HI: i64 = 40;
+
+struct Gen {
+    window: (i64, i64),
+    pending: Option<Op>,
+    /// (id, size) of earlier writes, for re-use of a value in the other region
+    written: Vec<(u32, u32)>,
+}
+
+impl Gen {
+    fn offset(&self, rng: &mut Rng, models: &[Model; 2], size: u32) -> i64 {
+        let all: Vec<&(i64, MV)> = models[0].cells.iter().chain(models[1].cells.iter()).collect();
+        let o = match rng.below(20) {
+            0..=8 if !all.is_empty() => {
+                // around an existing cell: from just touching below to just touching above
+                let c = *rng.pick(&all);
+                c.0 + rng.range_i64(-(size as i64), c.1.size as i64)
+            }
+            9..=15 => rng.range_i64(self.window.0, self.window.1),
+            _ => rng.range_i64(OFF_LO, OFF_HI),
+        };
+        o.clamp(OFF_LO, OFF_HI)
+    }
+
+    fn size(&self, rng: &mut Rng, models: &[Model; 2]) -> u32 {
+        if rng.chance(1, 4) {
+            let all: Vec<&(i64, MV)> = models[0].cells.iter().chain(models[1].cells.iter()).collect();
+            if !all.is_empty() {
+                return rng.pick(&all).1.size;
+            }
+        }
+        *rng.pick(&SIZES)
+    }
+
+    fn next(&mut self, rng: &mut Rng, models: &[Model; 2], id: u32) -> Op {
+        if let Some(op) = self.pending.take() {
+            return op;
+        }
+        let r = rng.below(2) as u8;
+        let size = self.size(rng, models);
+        match rng.below(100) {
+            0..=33 => {
+                let off = self.offset(rng, models, size);
+                let mut wid = id;
+                if rng.chance(1, 8) {
+                    wid = 0; // a top value
+                } else if rng.chance(1, 8) {
+                    let same: Vec<&(u32, u32)> = self.written.iter().filter(|w| w.1 == size).collect();
+                    if !same.is_empty() {
+                        wid = rng.pick(&same).0;
+                    }
+                }
+                if wid == id {
+                    self.written.push((id, size));
+                }
+                let flag = rng.chance(1, 6);
+                if rng.chance(1, 3) {
+                    // the same place in the other region: same or different value, same or different size
+                    let size2 = if rng.chance(3, 4) { size } else { *rng.pick(&SIZES) };
+                    let id2 = if size2 == size && rng.bool() { wid } else { id + 64 };
+                    let off2 = if rng.chance(5, 6) { off } else { (off + rng.range_i64(-2, 2)).clamp(OFF_LO, OFF_HI) };
+                    self.pending = Some(Op::Insert { r: 1 - r, off: off2, size: size2, id: id2, flag: flag && rng.bool(), via_add: rng.bool() });
+                }
+                Op::Insert { r, off, size, id: wid, flag, via_add: rng.bool() }
+            }
+            34..=41 => Op::Remove { r, off: self.offset(rng, models, size), size: if rng.chance(1, 5) { rng.range_i64(1, 12) as u32 } else { size }, sw: *rng.pick(&SIZES) },
+            42..=51 => {
+                // prefer offsets where a cell starts
+                let m = &models[r as usize];
+                let off = if !m.cells.is_empty() && rng.chance(2, 3) { rng.pick(&m.cells).0.clamp(OFF_LO, OFF_HI) } else { self.offset(rng, models, size) };
+                let size = match m.cell_at(off) {
+                    Some(v) if rng.chance(2, 3) => v.size,
+                    _ => size,
+                };
+                Op::Mwt { r, off, size }
+            }
+            52..=61 => {
+                let start = self.offset(rng, models, size);
+                let len = match rng.below(6) {
+                    0 | 1 => 0,
+                    2 => 1,
+                    3 => rng.range_i64(2, 4),
+                    _ => rng.range_i64(0, 20),
+                };
+                Op::Mark { r, start, end: (start + len).min(OFF_HI), elem: size }
+            }
+            62..=64 => Op::MarkAll { r },
+            65..=70 => Op::Shift { r, k: if rng.chance(1, 10) { 0 } else { rng.range_i64(-9, 9) } },
+            71..=76 => Op::Mutate { r, top_mask: rng.next_u64() & rng.next_u64(), fresh_mask: rng.next_u64() & rng.next_u64() & rng.next_u64(), id },
+            77..=90 => {
+                let dst = if rng.bool() { r } else { 1 - r };
+                Op::Merge { lhs: r, dst, with: dst == r && rng.bool() }
+            }
+            91..=97 => Op::Copy { dst: r },
+            _ => Op::Reset { r },
+        }
+    }
+}
+
+fn random_history<T: Dom>(rng: &mut Rng, rep: &mut Report, stats: &mut Stats, shrink_budget: &mut u32, want_sample: bool) {
+    let addr = if rng.chance(1, 4) { 4 } else { 8 };
+    let len = rng.range_usize(8, 60);
+    let w = *rng.pick(&[6i64, 12, 24, 56]);
+    let lo = rng.range_i64(OFF_LO, OFF_HI - w);
+    let mut gen = Gen { window: (lo, lo + w), pending: None, written: Vec::new() };
+    let seed = rng.next_u64();
+    let mut st: State<T> = State::new(addr);
+    let mut ops: Vec<Op> = Vec::with_capacity(len);
+    for i in 0..len {
+        // write ids: 1..=60 (the paired write in the other region uses id+64)
+        let op = gen.next(rng, &st.models, i as u32 + 1);
+        ops.push(op.clone());
+        rep.eval();
+        stats.hit(op.kind());
+        // a full sweep now and then, light probes otherwise
+        let mode = if i % 8 == 7 { Probes::Sweep } else { Probes::Light(seed) };
+        match step(&mut st, &op, addr, mode, i as u64, stats) {
+            Ok(info) => {
+                if info.nontrivial {
+                    rep.nontrivial(info.fingerprint);
+                }
+            }
+            Err(f) => {
+                report_failure::<T>(rep, &ops, addr, f, shrink_budget);
+                return;
+            }
+        }
+    }
+    if want_sample {
+        let k = ops.len().min(12);
+        let mut s: State<T> = State::new(addr);
+        let mut d = Stats::default();
+        for (i, op) in ops[..k].iter().enumerate() {
+            let _ = step(&mut s, op, addr, Probes::Sweep, i as u64, &mut d);
+        }
+        let obs: Vec<String> = (0..2).map(|i| show_dump(&observe(&s.regs[i], &[], addr).dump)).collect();
+        rep.sample(json!({"dom": T::KIND.name(), "addr": addr, "ops": &ops[..k], "expected_cells": [s.models[0].show(), s.models[1].show()], "observed_cells": obs}));
+    }
+}
+
+// ---------------------------------------------------------------------------
+// Exhaustive small histories
+
+const EX_OFFS: std::ops::RangeInclusive<i64> = 0..=6;
+const EX_SIZES: [u32; 3] = [1, 2, 4];
+
+/// The alphabet of the exhaustive enumeration (offsets 0..6, sizes 1,2,4).
+fn alphabet() -> Vec<Op> {
+    let mut a = Vec::new();
+    for r in 0..2u8 {
+        for off in EX_OFFS {
+            for size in EX_SIZES {
+                let via_add = (off + size as i64) % 2 == 0;
+                a.push(Op::Insert { r, off, size, id: 1, flag: false, via_add });
+                a.push(Op::Insert { r, off, size, id: 2, flag: false, via_add: !via_add });
+                a.push(Op::Insert { r, off, size, id: 0, flag: false, via_add });
+                a.push(Op::Remove { r, off, size, sw: 8 });
+                a.push(Op::Mwt { r, off, size });
+                for end in off..=*EX_OFFS.end() {
+                    a.push(Op::Mark { r, start: off, end, elem: size });
+                }
+            }
+        }
+        a.push(Op::MarkAll { r });
+        for k in [-1i64, 1, 3] {
+            a.push(Op::Shift { r, k });
+        }
+        a.push(Op::Mutate { r, top_mask: 1, fresh_mask: 2, id: 3 });
+        a.push(Op::Mutate { r, top_mask: 2, fresh_mask: 0, id: 3 });
+        a.push(Op::Merge { lhs: r, dst: r, with: r == 1 });
+        a.push(Op::Copy { dst: r });
+    }
+    a
+}
+
+struct Dfs<'a> {
+    alpha: &'a [Op],
+    addr: u32,
+    stats: Stats,
+    fails: u32,
+}
+
+fn dfs<T: Dom>(st: &State<T>, path: &mut Vec<Op>, depth_left: u32, ctx: &mut Dfs, rep: &mut Report) {
+    let alpha = ctx.alpha;
+    for op in alpha {
+        if ctx.fails >= 50 {
+            return;
+        }
+        let mut next = st.clone();
+        path.push(op.clone());
+        rep.eval();
+        match step(&mut next, op, ctx.addr, Probes::Sweep, path.len() as u64, &mut ctx.stats) {
+            Ok(info) => {
+                if info.nontrivial {
+                    rep.nontrivial(mix(info.fingerprint, 0xe5));
+                }
+                if depth_left > 1 {
+                    dfs(&next, path, depth_left - 1, ctx, rep);
+                }
+            }
+            Err(f) => {
+                ctx.fails += 1;
+                let mut budget = 0;
+                report_failure::<T>(rep, path, ctx.addr, f, &mut budget);
+            }
+        }
+        path.pop();
+    }
+}
+
+fn exhaustive_shard<T: Dom>(first: &Op, alpha: &[Op], depth: u32, rep: &mut Report) {
+    let addr = 8;
+    let mut ctx = Dfs { alpha, addr, stats: Stats::default(), fails: 0 };
+    let mut st: State<T> = State::new(addr);
+    let mut path = vec![first.clone()];
+    rep.eval();
+    match step(&mut st, first, addr, Probes::Sweep, 0, &mut ctx.stats) {
+        Ok(_) => {
+            if depth > 1 {
+                dfs(&st, &mut path, depth - 1, &mut ctx, rep);
+            }
+        }
+        Err(f) => {
+            let mut budget = 0;
+            report_failure::<T>(rep, &path, addr, f, &mut budget);
+        }
+    }
+    rep.obs_n(&format!("exhaustive-histories:{}", T::KIND.name()), rep.evaluations);
+    ctx.stats.flush(rep);
+}
+
+// ---------------------------------------------------------------------------
+
+fn run(cfg: &Cfg) -> Report {
+    let alpha = alphabet();
+    let depth = cfg.tier.pick(2u32, 3u32);
+    let n_ex = alpha.len() * 2;
+    let n_rand = cfg.tier.pick(256usize, 1024usize);
+    let per_shard = cfg.tier.pick(2000u64, 6000u64);
+    let mut rep = par_shards(cfg, "c05", n_ex + n_rand, |idx, rng, rep| {
+        if idx < n_ex {
+            let first = &alpha[idx / 2];
+            if idx % 2 == 0 {
+                exhaustive_shard::<Tracer>(first, &alpha, depth, rep);
+            } else {
+                exhaustive_shard::<BitvectorDomain>(first, &alpha, depth, rep);
+            }
+        } else {
+            let mut stats = Stats::default();
+            let mut budget = 3u32;
+            for i in 0..per_shard {
+                let want = i == 0 && idx < n_ex + 4;
+                if (idx + i as usize) % 2 == 0 {
+                    random_history::<Tracer>(rng, rep, &mut stats, &mut budget, want);
+                } else {
+                    random_history::<BitvectorDomain>(rng, rep, &mut stats, &mut budget, want);
+                }
+                if rep.violation_count > 200 {
+                    break;
+                }
+            }
+            rep.obs_n("random-histories", per_shard);
+            stats.flush(rep);
+        }
+    });
+    rep.exhaustive_parts.push(format!(
+        "all histories of length <= {depth} over an alphabet of {} operations (offsets 0..6, sizes 1,2,4; two write ids + top value, remove, merge_write_top, every mark_interval with start<=end, mark_all, shifts -1/1/3, values_mut+clear_top_values, merge, merge_with, clone) for both value domains",
+        alpha.len()
+    ));
+    rep
+}
+
+fn replay(_cfg: &Cfg, case: &Value) -> Report {
+    let mut rep = Report::new();
+    let ops: Vec<Op> = match serde_json::from_value(case["ops"].clone()) {
+        Ok(o) => o,
+        Err(e) => {
+            rep.note(format!("replay: cannot parse ops: {e}"));
+            return rep;
+        }
+    };
+    let addr = case["addr"].as_u64().unwrap_or(8) as u32;
+    let mut stats = Stats::default();
+    let dom = case["dom"].as_str().unwrap_or("");
+    let res = match dom {
+        "tracer" => run_history::<Tracer>(&ops, addr, &mut stats).map(|(i, f)| (i, f, Kind::Tracer)),
+        "bv" => run_history::<BitvectorDomain>(&ops, addr, &mut stats).map(|(i, f)| (i, f, Kind::Bv)),
+        _ => {
+            rep.note("replay: unknown value domain");
+            return rep;
+        }
+    };
+    rep.evals(ops.len() as u64);
+    if let Some((i, f, kind)) = res {
+        rep.violation(signature(kind, &ops[i], &f.what), None, f.detail, case_json(kind, addr, &ops[..=i]), i as u64 + 1);
+    }
+    rep
 }
